@@ -179,24 +179,25 @@ structure Same (d d' : Dec) : Prop where
   instrs : d'.instrs = d.instrs
   del : d.delete = true → d'.delete = true
   ctxt : d'.ctxt = d.ctxt
+  curEnd : d'.curEnd = d.curEnd
 
-theorem Same.rfl' (d : Dec) : Same d d := ⟨rfl, rfl, rfl, id, rfl⟩
+theorem Same.rfl' (d : Dec) : Same d d := ⟨rfl, rfl, rfl, id, rfl, rfl⟩
 theorem Same.tr {a b c : Dec} (h1 : Same a b) (h2 : Same b c) : Same a c :=
-  ⟨h2.oi.trans h1.oi, h2.ol.trans h1.ol, h2.instrs.trans h1.instrs, fun h => h2.del (h1.del h), h2.ctxt.trans h1.ctxt⟩
-theorem bumpRef_same (d : Dec) (x : Int) : Same d (bumpRef d x) := by unfold bumpRef; split <;> exact ⟨rfl, rfl, rfl, id, rfl⟩
+  ⟨h2.oi.trans h1.oi, h2.ol.trans h1.ol, h2.instrs.trans h1.instrs, fun h => h2.del (h1.del h), h2.ctxt.trans h1.ctxt, h2.curEnd.trans h1.curEnd⟩
+theorem bumpRef_same (d : Dec) (x : Int) : Same d (bumpRef d x) := by unfold bumpRef; split <;> exact ⟨rfl, rfl, rfl, id, rfl, rfl⟩
 theorem setRef_same (d : Dec) (i : Int) : Same d (setRef d i) := by
   unfold setRef bumpRef; simp only []; split
-  · split <;> exact ⟨rfl, rfl, rfl, id, rfl⟩
+  · split <;> exact ⟨rfl, rfl, rfl, id, rfl, rfl⟩
   · exact Same.rfl' d
 theorem setChanged_same (d : Dec) (i : Int) : Same d (setChanged d i) := by
   unfold setChanged bumpRef; simp only []; split
-  · split <;> exact ⟨rfl, rfl, rfl, id, rfl⟩
+  · split <;> exact ⟨rfl, rfl, rfl, id, rfl, rfl⟩
   · exact Same.rfl' d
 theorem setNoref_same (d : Dec) (i : Int) : Same d (setNoref d i) := by
   unfold setNoref; simp only []; split
   · exact bumpRef_same _ _
   · exact Same.rfl' d
-theorem modify_same (d : Dec) : Same d { d with modify := true } := ⟨rfl, rfl, rfl, id, rfl⟩
+theorem modify_same (d : Dec) : Same d { d with modify := true } := ⟨rfl, rfl, rfl, id, rfl, rfl⟩
 
 theorem analyse_same (d : Dec) (opc : Nat) (ps : List Nat) {d' : Dec} (h : analyse d opc ps = .ok d') :
     Same d d' ∧ (opc = 32 → d'.delete = true) := by
@@ -204,7 +205,7 @@ theorem analyse_same (d : Dec) (opc : Nat) (ps : List Nat) {d' : Dec} (h : analy
   simp only [bind, Except.bind, pure, Except.pure] at h
   by_cases h0 : opc = 32
   · rw [if_pos h0] at h; injection h with h; subst h
-    exact ⟨⟨rfl, rfl, rfl, fun _ => rfl, rfl⟩, fun _ => rfl⟩
+    exact ⟨⟨rfl, rfl, rfl, fun _ => rfl, rfl, rfl⟩, fun _ => rfl⟩
   rw [if_neg h0] at h
   refine ⟨?_, fun ho => absurd ho h0⟩
   by_cases h1 : opc = 33
@@ -219,11 +220,11 @@ theorem analyse_same (d : Dec) (opc : Nat) (ps : List Nat) {d' : Dec} (h : analy
   by_cases h4 : opc = 25 ∨ opc = 27
   · rw [if_pos h4] at h
     split at h
-    · injection h with h; subst h; exact ⟨rfl, rfl, rfl, id, rfl⟩
+    · injection h with h; subst h; exact ⟨rfl, rfl, rfl, id, rfl, rfl⟩
     · cases h
   rw [if_neg h4] at h
   by_cases h5 : opc = 31
-  · rw [if_pos h5] at h; injection h with h; subst h; exact ⟨rfl, rfl, rfl, id, rfl⟩
+  · rw [if_pos h5] at h; injection h with h; subst h; exact ⟨rfl, rfl, rfl, id, rfl, rfl⟩
   rw [if_neg h5] at h
   by_cases h6 : opc = 29 ∨ opc = 56
   · rw [if_pos h6] at h
@@ -487,5 +488,259 @@ theorem accepted_action_passes_cursor_tests (l : Limits) (pt : Nat) (bc : List N
               rw [curRun_foldl_insertAt]; exact hrun
             · simp only [Bool.or_eq_true]
               exact .inl (hcf.dels hd)
+
+/-! ## the loader and the pipeline model cut the bytes into the same instructions -/
+
+/-- what `stepOp` does to the position and the instruction list of an action: it cuts off the opcode byte and the operand bytes the opcode
+table gives it -/
+theorem stepOp_cut (l : Limits) (pt : Nat) (bc : List Nat) (pos : Nat) (d : Dec) {pos' : Nat} {d' : Dec}
+    (e : stepOp l false pt bc pos d = .ok (.ok (pos', d'))) :
+    ∃ opc nm psz ia ic n, bc[pos]? = some opc ∧ opcodeTable[opc]? = some (nm, psz, ia, ic) ∧ paramCount bc pos psz = .ok n ∧ pos + n < d.curEnd ∧
+      pos' = pos + 1 + n ∧ d'.instrs = (opc, (bc.drop (pos + 1)).take n) :: d.instrs ∧ d'.curEnd = d.curEnd ∧ d'.ctxt = d.ctxt := by
+  unfold stepOp at e
+  simp only [bind, Except.bind, pure, Except.pure] at e
+  cases h1 : byteAt bc pos with
+  | error f => rw [h1] at e; cases e
+  | ok opc =>
+  rw [h1] at e
+  simp only [] at e
+  by_cases h67 : opc ≥ 67
+  · rw [if_pos h67] at e; cases e
+  rw [if_neg h67] at e
+  cases ht : opcodeTable[opc]? with
+  | none => rw [ht] at e; cases e
+  | some row =>
+  obtain ⟨nm, psz, implA, implC⟩ := row
+  rw [ht] at e
+  simp only [] at e
+  by_cases himpl : (!(if false = true then implC else implA)) = true
+  · rw [if_pos himpl] at e; cases e
+  rw [if_neg himpl] at e
+  by_cases hva : psz = 255 ∧ pos + 1 ≥ d.curEnd
+  · rw [if_pos hva] at e; cases e
+  rw [if_neg hva] at e
+  cases h2 : paramCount bc pos psz with
+  | error f => rw [h2] at e; cases e
+  | ok n =>
+  rw [h2] at e
+  simp only [] at e
+  by_cases hex : pos + n ≥ d.curEnd
+  · rw [if_pos hex] at e; cases e
+  rw [if_neg hex] at e
+  cases h3 : fetchCase l false pt d opc pos ((bc.drop (pos + 1)).take n) with
+  | error f => rw [h3] at e; cases e
+  | ok bt =>
+  obtain ⟨b1, tests⟩ := bt
+  rw [h3] at e
+  simp only [] at e
+  cases hlf : lastFail tests with
+  | some s0 => rw [hlf] at e; cases e
+  | none =>
+  rw [hlf] at e
+  simp only [] at e
+  cases h4 : analyse { d with outIndex := b1.outIndex, outLength := b1.outLength, stackDepth := b1.stackDepth } opc ((bc.drop (pos + 1)).take n) with
+  | error f => rw [h4] at e; cases e
+  | ok d2 =>
+  rw [h4] at e
+  simp only [] at e
+  obtain ⟨hs, _⟩ := analyse_same _ _ _ h4
+  have hkeep : d2.curEnd = d.curEnd := hs.curEnd
+  by_cases h34 : opc = 34
+  · subst h34
+    rw [row34] at ht
+    simp only [Option.some.injEq, Prod.mk.injEq] at ht
+    obtain ⟨_, _, rfl, _⟩ := ht
+    simp at himpl
+  rw [if_neg h34] at e
+  simp only [Except.ok.injEq, Prod.mk.injEq] at e
+  obtain ⟨rfl, rfl⟩ := e
+  have hb : bc[pos]? = some opc := by
+    unfold byteAt at h1
+    cases hq : bc[pos]? with
+    | none => rw [hq] at h1; cases h1
+    | some x => rw [hq] at h1; cases h1; rfl
+  exact ⟨opc, nm, psz, implA, implC, n, hb, ht, h2, by omega, rfl, by simp only [hs.instrs], hkeep, hs.ctxt⟩
+
+theorem decode_nil (f : Nat) : Action.decode f [] = some [] := by cases f <;> rfl
+
+/-- the loader's loop over an action and the pipeline model's `decode` cut the same bytes into the same instructions -/
+theorem loop_decode (l : Limits) (pt : Nat) (bc : List Nat) : ∀ (fuel pos : Nat) (d : Dec), d.ctxt = none → d.curEnd = bc.length →
+    ∀ {dfin : Dec}, loop l false pt bc fuel pos d = .ok (.ok dfin) → ∀ f2, bc.length - pos + 1 ≤ f2 →
+      ∃ tail, Action.decode f2 (bc.drop pos) = some tail ∧ dfin.instrs.reverse = d.instrs.reverse ++ tail := by
+  intro fuel
+  induction fuel with
+  | zero => intro pos d _ _ dfin e; unfold loop at e; cases e
+  | succ f ih =>
+    intro pos d hctxt hend dfin e f2 hf2
+    unfold loop at e
+    split at e
+    · rename_i hge
+      rw [hctxt] at e
+      simp only [Except.ok.injEq] at e
+      subst e
+      rw [List.drop_eq_nil_of_le (by omega), decode_nil]
+      exact ⟨[], rfl, by simp⟩
+    · rename_i hlt
+      cases hs : stepOp l false pt bc pos d with
+      | error ff => rw [hs] at e; cases e
+      | ok r =>
+        rw [hs] at e
+        cases r with
+        | error s => cases e
+        | ok pd =>
+          obtain ⟨pos', d'⟩ := pd
+          simp only [] at e
+          obtain ⟨opc, nm, psz, ia, ic, n, hb, ht, hpc, hn, hpos', hins, hce, hcx⟩ := stepOp_cut l pt bc pos d hs
+          have hposlt : pos < bc.length := by
+            have := List.getElem?_eq_some_iff.mp hb; exact this.1
+          have hdrop : bc.drop pos = opc :: bc.drop (pos + 1) := by
+            rw [List.drop_eq_getElem_cons hposlt]
+            have := (List.getElem?_eq_some_iff.mp hb).2
+            rw [this]
+          cases f2 with
+          | zero => omega
+          | succ g =>
+            obtain ⟨tail, htail, hfin⟩ := ih pos' d' (by rw [hcx]; exact hctxt) (by rw [hce]; exact hend) e g (by omega)
+            have hn' : (if psz = 255 then (bc.drop (pos + 1)).headD 0 + 1 else psz) = n := by
+              unfold paramCount at hpc
+              by_cases h255 : psz = 255
+              · rw [if_pos h255] at hpc ⊢
+                cases hq : byteAt bc (pos + 1) with
+                | error ee => rw [hq] at hpc; cases hpc
+                | ok k =>
+                  rw [hq] at hpc
+                  simp only [Except.ok.injEq] at hpc
+                  unfold byteAt at hq
+                  cases hk : bc[pos + 1]? with
+                  | none => rw [hk] at hq; cases hq
+                  | some x =>
+                    rw [hk] at hq
+                    simp only [Except.ok.injEq] at hq
+                    have hlt1 : pos + 1 < bc.length := (List.getElem?_eq_some_iff.mp hk).1
+                    rw [List.drop_eq_getElem_cons hlt1]
+                    have := (List.getElem?_eq_some_iff.mp hk).2
+                    simp only [List.headD_cons]
+                    omega
+              · rw [if_neg h255] at hpc ⊢
+                simp only [Except.ok.injEq] at hpc
+                exact hpc
+            refine ⟨(opc, (bc.drop (pos + 1)).take n) :: tail, ?_, ?_⟩
+            · rw [hdrop]
+              unfold Action.decode
+              simp only [ht]
+              rw [hn']
+              rw [if_neg (by simp only [List.length_drop]; omega)]
+              rw [List.drop_drop, show pos + 1 + n = pos' by omega, htail]
+            · rw [hfin, hins]
+              simp
+
+/-! ## from the loader's acceptance to `codeOK` -/
+
+theorem analyseOp_deletes (a : Action.An) (i : Instr) : (Action.analyseOp a i).deletes = (a.deletes || decide (i.1 = 32)) := by
+  obtain ⟨opc, ps⟩ := i
+  unfold Action.analyseOp
+  simp only []
+  split <;> (repeat' split) <;> first | rfl | simp_all
+
+theorem analyse_fold_deletes : ∀ (is : List Instr) (a : Action.An), (a.deletes = true ∨ ∃ i ∈ is, i.1 = 32) → (is.foldl Action.analyseOp a).deletes = true := by
+  intro is
+  induction is with
+  | nil => intro a h; rcases h with h | ⟨i, hi, _⟩; exact h; cases hi
+  | cons j rest ih =>
+    intro a h
+    simp only [List.foldl_cons]
+    apply ih
+    rw [analyseOp_deletes]
+    rcases h with h | ⟨i, hi, h32⟩
+    · left; simp [h]
+    · rcases List.mem_cons.mp hi with rfl | hi
+      · left; simp [h32]
+      · right; exact ⟨i, hi, h32⟩
+
+theorem curStep_dels_src {cur cur' : Cur} {i : Instr} (h : curStep cur i = some cur') (hd : cur'.dels = true) : cur.dels = true ∨ i.1 = 32 := by
+  unfold curStep at h
+  simp only [] at h
+  split at h
+  · split at h
+    · cases h; exact .inl hd
+    · cases h
+  · split at h
+    · cases h; exact .inl hd
+    · split at h
+      · rename_i h32; exact .inr h32
+      · split at h
+        · split at h
+          · cases h; exact .inl hd
+          · cases h
+        · cases h; exact .inl hd
+
+theorem curRun_dels_src : ∀ (is : List Instr) {cur cur' : Cur}, curRun cur is = some cur' → cur'.dels = true → cur.dels = true ∨ ∃ i ∈ is, i.1 = 32 := by
+  intro is
+  induction is with
+  | nil => intro cur cur' h hd; unfold curRun at h; cases h; exact .inl hd
+  | cons j rest ih =>
+    intro cur cur' h hd
+    unfold curRun at h
+    split at h
+    · rename_i c1 h1
+      rcases ih h hd with h2 | ⟨i, hi, h32⟩
+      · rcases curStep_dels_src h1 h2 with h3 | h3
+        · exact .inl h3
+        · exact .inr ⟨j, List.mem_cons_self, h3⟩
+      · exact .inr ⟨i, List.mem_cons_of_mem _ hi, h32⟩
+    · cases h
+
+theorem curRun_actionTemps (is : List Instr) (c : Cur) : curRun c (Action.insertTemps is).1 = curRun c is := by
+  unfold Action.insertTemps
+  simp only []
+  generalize (Action.tempCopies is).1 = ps
+  have : ∀ (ps : List Nat) (acc : List Instr), curRun c (ps.foldl (fun acc p => acc.take p ++ [(67, [])] ++ acc.drop p) acc) = curRun c acc := by
+    intro ps
+    induction ps with
+    | nil => intro acc; rfl
+    | cons p rest ih =>
+      intro acc
+      simp only [List.foldl_cons]
+      rw [ih]
+      have := curRun_insertAt acc p c
+      unfold insertAt at this
+      simpa using this
+  exact this ps is
+
+/-- **What the loader accepts as a rule's action is `codeOK`** – the hypothesis of the null-cursor, slot-map and operand theorems
+(`Proofs/CursorShape.lean`), as the pipeline model states it: the bytes decode (`mkCode`), the decoded code passes the cursor tests from
+`(pre_context, rule_length)`, and it is flagged `deletes` whenever a `DELETE` was read. -/
+theorem accepted_action_is_codeOK (l : Limits) (pt : Nat) (bc : List Nat) (p : Loaded) (hrl : l.ruleLength < 65536)
+    (h : load l false pt bc = .ok (.ok (some p))) : Pass.codeOK ⟨l.preContext, l.ruleLength, false⟩ bc true = true := by
+  unfold load at h
+  simp only [bind, Except.bind, pure, Except.pure] at h
+  cases hl : loop l false pt bc (2 * bc.length + 2) 0 { outIndex := if false = true then 0 else l.preContext, outLength := if false = true then 1 else l.ruleLength, curEnd := bc.length } with
+  | error f => rw [hl] at h; cases h
+  | ok r =>
+    rw [hl] at h
+    cases r with
+    | error s => cases h
+    | ok d =>
+      have hinv0 : CurInv { outIndex := if false = true then 0 else l.preContext, outLength := if false = true then 1 else l.ruleLength, curEnd := bc.length }
+          (⟨l.preContext, l.ruleLength, false⟩ : Cur) :=
+        ⟨rfl, rfl, by show (-1 : Int) ≤ (l.preContext : Int); omega, hrl, fun hh => by cases hh⟩
+      obtain ⟨curf, hrun, hcf⟩ := loop_cur l pt bc ⟨l.preContext, l.ruleLength, false⟩ _ 0 _ _ hinv0 rfl rfl hl
+      obtain ⟨tail, hdec, htail⟩ := loop_decode l pt bc _ 0 _ rfl rfl hl (bc.length + 1) (by omega)
+      simp only [List.drop_zero, List.reverse_nil, List.nil_append] at hdec htail
+      unfold Pass.codeOK Pass.mkCode
+      rw [hdec]
+      simp only [if_true]
+      rw [curRun_actionTemps, ← htail, hrun]
+      simp only [Bool.or_eq_true, Bool.not_eq_true']
+      cases hdl : curf.dels with
+      | false => exact .inl rfl
+      | true =>
+        right
+        rcases curRun_dels_src _ hrun hdl with h0 | hex
+        · cases h0
+        · unfold Action.insertTemps Action.tempCopies
+          simp only []
+          rw [analyse_fold_deletes d.instrs.reverse {} (.inr hex)]
+          rfl
 
 end GrVerif.CodeLoad
